@@ -329,6 +329,9 @@ impl<'tx> TxInner<'tx> {
                     file.seek(SeekFrom::Start(self.db.inner.pagesize * page_id))?;
                     file.write_all(buf)?;
                 }
+                // The data pages must be on disk before the meta page that points at them is
+                // written, otherwise a power loss can leave a valid meta page with missing data.
+                file.sync_all()?;
             }
         }
         if self.db.inner.flags.strict_mode {
